@@ -1,0 +1,19 @@
+//go:build verif
+
+package decoder
+
+// VerifVersions flattens the decoder's size table (monitor use only): for each
+// entry {number, rows, cols, regionRows, regionCols, ecPerBlock, totalCodewords,
+// count1, data1, count2, data2, ...}.
+func VerifVersions() [][]int {
+	out := make([][]int, 0, len(versions))
+	for _, v := range versions {
+		row := []int{v.versionNumber, v.symbolSizeRows, v.symbolSizeColumns,
+			v.dataRegionSizeRows, v.dataRegionSizeColumns, v.ecBlocks.ecCodewords, v.totalCodewords}
+		for _, b := range v.ecBlocks.ecBlocks {
+			row = append(row, b.count, b.dataCodewords)
+		}
+		out = append(out, row)
+	}
+	return out
+}
